@@ -12,6 +12,7 @@
 #include "engines/procemu.h"
 #include "engines/xmlscan.h"
 #include "engines/io_targets.h"
+#include "engines/io_events.h"
 
 #include <gnu_gama/xml/gkfparser.h>
 
@@ -22,6 +23,8 @@ namespace {
 std::vector<gnet::Doc> g_gkf, g_adj, g_g3;
 std::vector<int> g_sweep;                 // indices into g_gkf, the documents swept in this tier
 std::vector<size_t> g_sweep_off;          // prefix sums of 2*len
+std::vector<ioev::Space> g_spaces;        // enumerated event-sequence spaces (class iii), after the document sweeps
+std::vector<uint64_t> g_space_off;        // their first indices; back() = end of the enumerated part
 std::string g_tier = "quick";
 
 void load_all()
@@ -46,6 +49,8 @@ void setup_sweep(const std::string& tier)
     size_t L = g_gkf[order[i]].bytes.size();
     g_sweep.push_back(order[i]); total += 3 * L + (L + 3) / 4; g_sweep_off.push_back(total);
   }
+  g_spaces = ioev::spaces(tier); g_space_off.assign(1, total);
+  for (auto& sp : g_spaces) g_space_off.push_back(g_space_off.back() + sp.count);
 }
 
 // ------------------------------------------------------------ hostile data ---
@@ -211,7 +216,7 @@ public:
   const char* name() const override { return "sim_io"; }
   const char* property() const override { return "C11"; }
   void init(const std::string& tier) override { setup_sweep(tier); }
-  uint64_t enumerated_count(const std::string& tier) override { setup_sweep(tier); return g_sweep_off.back(); }
+  uint64_t enumerated_count(const std::string& tier) override { setup_sweep(tier); return g_space_off.back(); }
   long recycle_after() override { return 1500; }     // several error paths of gama-local leak the network object by design
   Plan generate(uint64_t seed, uint64_t index, const std::string& tier) override;
   Verdict execute(const Plan& plan, EventLog& log, Stats& st) override;
@@ -342,8 +347,13 @@ Verdict IoEngine::execute(const Plan& plan, EventLog& log, Stats& st)
   bool valid = plan.geti("validbase", 0) != 0, err_end = false, finalsep = false;
   std::vector<size_t> cuts;
   int fired = 0;
+  std::string ev_shape;
+  if (!plan.get("alphabet").empty()) {          // class (iii): the document is built from the plan's events
+    int ne = 0; B = ioev::build(plan, &ne, &ev_shape); fired += ne; valid = false;
+    st.add("event_documents"); st.add("events", ne); st.state("event_contexts", plan.get("alphabet") + "/" + plan.get("ctx"));
+  }
   for (const Step& s : plan.steps) {
-    if (is_transport(s.op)) continue;
+    if (is_transport(s.op) || s.op == "ev") continue;
     bool vp = true;
     bool applied = apply_edit(B, s, vp);
     if (applied) { fired++; st.add("fault." + s.op); if (!vp) valid = false; if (s.op == "err") err_end = true; }
@@ -372,7 +382,7 @@ Verdict IoEngine::execute(const Plan& plan, EventLog& log, Stats& st)
   }
   if (const char* dp = getenv("VERIF_DUMP_BYTES")) write_file(dp, B);      // debugging aid: the bytes actually delivered
   // abstract form of the run: consumer, document, and where which fault landed (element / lexical context / kind)
-  st.shape = target + ":" + plan.get("name", plan.get("sweep", "")).substr(0, 40) + ":" + sites;
+  st.shape = target + ":" + plan.get("name", plan.get("sweep", "")).substr(0, 40) + ":" + ev_shape + sites;
   for (const Step& s : plan.steps) if (s.a.empty() || is_transport(s.op) == false) { if (sites.find(s.op) == std::string::npos) st.shape += s.op + ","; }
   log.line("target %s bytes %zu doc %016llx cuts %zu err %d valid %d", target.c_str(), B.size(), (unsigned long long)fnv(B), cuts.size(), (int)err_end, (int)valid);
   st.add("target." + target);
@@ -456,8 +466,44 @@ Plan IoEngine::generate(uint64_t seed, uint64_t index, const std::string& tier)
     p.seti("refill", 0);
     return p;
   }
+  if (index < g_space_off.back()) {
+    // ---- enumerated part, class (iii): every sequence of d events in every context
+    size_t k = 0; while (g_space_off[k + 1] <= index) k++;
+    ioev::fill_plan(p, g_spaces[k], index - g_space_off[k]);
+    p.set("name", fmt("events-%s-d%d", g_spaces[k].alphabet.c_str(), g_spaces[k].depth));
+    if (p.get("target") == "local") p.set("args", "- --xml -");
+    p.seti("refill", 0);
+    return p;
+  }
   // ---- seeded part
   p.seti("refill", g.chance(1, 6) ? 1 : 0);
+  if (g.chance(1, 8)) {
+    // class (iii), sampled: longer sequences, attribute variants, leaves with text, raw closing tags, no closing at all
+    static const char* AL[] = {"gkf", "gkf", "g3", "adj"};
+    std::string a = AL[g.below(4)];
+    const ioev::Alphabet& A = ioev::alphabet(a);
+    p.set("alphabet", a); p.seti("ctx", (long long)g.below(ioev::contexts(a).size()));
+    std::string target = a == "gkf" ? (g.chance(2, 3) ? "local" : "gkf") : a == "g3" ? (g.chance(1, 2) ? "g3" : "data") : (g.chance(4, 5) ? "adjres" : "html");
+    p.set("target", target); p.set("name", "events-" + a);
+    if (target == "local") { int xf = -1; p.set("args", g.chance(1, 2) ? std::string("- --xml -") : gen_args(g, xf)); p.seti("xmlfile", xf); }
+    if (target == "g3") p.seti("g3alg", (long long)g.below(4));
+    int ne = (int)g.range(1, 10);
+    // half of the time the tags are drawn from the few that the context admits (found by name affinity: the same
+    // small set is reused, so that nested structures get built), otherwise from the whole alphabet
+    std::vector<int> few; int nf = (int)g.range(2, 6); for (int i = 0; i < nf; i++) few.push_back((int)g.below(A.n));
+    bool narrow = g.chance(1, 2);
+    for (int i = 0; i < ne; i++) {
+      Step s; s.op = "ev";
+      int tag = narrow ? few[g.below(few.size())] : (int)g.below(A.n);
+      int kr = (int)g.below(20); int kind = kr < 9 ? 0 : kr < 14 ? 1 : kr < 19 ? 2 : 3;
+      long long var = g.chance(1, 3) ? 0 : g.chance(1, 6) ? 1 : (long long)g.range(2, 100000);
+      s.a = {tag, kind, var}; p.steps.push_back(s);
+    }
+    if (g.chance(1, 12)) p.seti("noclose", 1);
+    int nc = g.chance(1, 2) ? 0 : (int)g.range(1, 4);
+    for (int i = 0; i < nc; i++) { Step s; s.op = "cut"; s.a = {(long long)g.below(4000)}; p.steps.push_back(s); }
+    return p;
+  }
   int tr = (int)g.below(100);
   std::string target = tr < 40 ? "local" : tr < 70 ? "gkf" : iotargets::pick(g);
   p.set("target", target);
